@@ -1003,7 +1003,21 @@ func runWire(t evid.TB, pl *wplan, audience bool) *wresult {
 	var sentinelNAL []byte = l.units[l.sentinelUnit].Bytes
 	seen := func(c *wclient) bool {
 		if c.flvKind() {
-			return bytes.Contains(c.flvBytes(), sentinelNAL)
+			// a complete tag (its PreviousTagSize included) must hold it: the judge reads complete tags only
+			body := c.flvBytes()
+			if !bytes.Contains(body, sentinelNAL) {
+				return false
+			}
+			f, err := flvparse.ParsePrefix(body)
+			if err != nil {
+				return true // the judge reports the parse error
+			}
+			for i := len(f.Tags) - 1; i >= 0; i-- {
+				if bytes.Contains(f.Tags[i].Data, sentinelNAL) {
+					return true
+				}
+			}
+			return false
 		}
 		for i := len(c.items) - 1; i >= 0; i-- {
 			if l.key(0, c.items[i].Data) == sentinelKey {
@@ -1364,7 +1378,7 @@ func TestWireFanout(t *testing.T) {
 	evid.Rule("wire (layer C): rapid over one publisher (stream fed directly | scripted RTSP RECORD session) publishing <=60 generated packets (tagged H.264/H.265 units in every packetisation, optional AAC, RTCP on the control channels) + sentinel + fillers, and 1..3 real clients of the in-process server over {RTSP/TCP interleaved, RTSP/UDP, ws-rtsp, WSP control+data, HTTP-FLV, ws-flv} attaching at generated positions with generated channel numbers / track subsets, the audience leaving by disconnect or TEARDOWN; oracle: strict framing, every item a published packet byte-identical on the negotiated channel, at most once, publish order, complete from the read PLAY response (FLV: from the registration) up to the sentinel; FLV units by embedded tags; twin run with the target alone. Non-trivial = >=2 clients of different transports alive at once and an attach or detach strictly inside the publish sequence")
 	evid.Assume("wire: an HTTP-FLV / ws-flv consumer has no wire-level attach signal; its attach point is the moment the stream lists a consumer with the client's address (read in-process)")
 	evid.Assume("wire: gorilla/websocket frames the client side of ws-rtsp / WSP / ws-flv; what is judged is ipchub's use of message boundaries and the bytes inside")
-	evid.Checks(110, 1200)
+	evid.Checks(300, 3000)
 	rapid.Check(t, func(t *rapid.T) {
 		pl := genWirePlan(t)
 		evid.Eval(1)
